@@ -1635,13 +1635,11 @@ theorem measure_x_refuted (o : Bool) :
 /-- side condition for the extended API -/
 def WFX : Tab.OpX → Prop
   | .base op => WF op
+  | .cy c t => c ≠ t
   | _ => True
 
-theorem wfx_desugar (xs : List Tab.OpX) (h : ∀ x ∈ xs, WFX x) : ∀ op ∈ xs.flatMap Tab.OpX.desugar, WF op := by
-  intro op hop
-  rw [List.mem_flatMap] at hop
-  obtain ⟨x, hx, hox⟩ := hop
-  have hw := h x hx
+theorem wfx_desugar (n : Nat) (x : Tab.OpX) (hw : WFX x) : ∀ op ∈ x.desugar n, WF op := by
+  intro op hox
   cases x with
   | base b =>
     simp only [Tab.OpX.desugar, List.mem_cons, List.mem_nil_iff, or_false] at hox
@@ -1655,6 +1653,16 @@ theorem wfx_desugar (xs : List Tab.OpX) (h : ∀ x ∈ xs, WFX x) : ∀ op ∈ x
   | measY q o =>
     simp only [Tab.OpX.desugar, List.mem_cons, List.mem_nil_iff, or_false] at hox
     rcases hox with rfl | rfl | rfl | rfl | rfl <;> trivial
+  | cy c t =>
+    simp only [Tab.OpX.desugar, List.mem_cons, List.mem_nil_iff, or_false] at hox
+    rcases hox with rfl | rfl | rfl | rfl
+    · trivial
+    · trivial
+    · exact hw
+    · trivial
+  | traceOut pos os =>
+    simp only [Tab.OpX.desugar, List.mem_cons, List.mem_nil_iff, or_false] at hox
+    rw [hox]; trivial
 
 /-- **`measure_x` / `x_measurement_gate` / `Stabilizer.apply_x_measurement` (repaired), group level and Hilbert level.**
     The call is `hadamard_gate; z_measurement_gate; hadamard_gate`; the result is valid with real stabilizer rows on the same
@@ -1700,23 +1708,50 @@ theorem measure_y_spec (t : Tab) (q : Nat) (o : Bool) (hq : q < t.n) (hv : t.Val
     rcases hop with rfl | rfl | rfl | rfl | rfl <;> trivial) t _ hv hr hrun
   exact ⟨h3, h4, h5, hst.2.2, h1, h2⟩
 
-/-- **History theorems for the API extended by the X / Y measurements** (`Tab.OpX`, `Tab.runOpsX`): an extended history is the
-    history of its base operations (`desugar`), so validity, reality of the stabilizer rows, the group-level refinement, the
-    density-matrix refinement and the Born rule all hold along every accepted extended history. -/
-theorem history_extended_api (xs : List Tab.OpX) (hxs : ∀ x ∈ xs, WFX x) (t t' : Tab) (hv : t.Valid) (hr : t.StabReal)
-    (h : t.runOpsX xs = .ok t') :
-    t.runOps (xs.flatMap Tab.OpX.desugar) = .ok t' ∧ t'.Valid ∧ t'.StabReal ∧
-    gstate t' = specOps (xs.flatMap Tab.OpX.desugar) (gstate t) ∧
-    dstate t' = dOps (xs.flatMap Tab.OpX.desugar) (dstate t) ∧
-    dProbOps (xs.flatMap Tab.OpX.desugar) (dstate t) = (1 / 2 : ℂ) ^ randOps t (xs.flatMap Tab.OpX.desugar) := by
-  rw [runOpsX_eq_runOps] at h
-  have hw := wfx_desugar xs hxs
-  obtain ⟨v, r, g⟩ := history_tracks_state _ hw t t' hv hr h
-  exact ⟨h, v, r, g, history_tracks_density _ hw t t' hv hr h, born_rule_history _ hw t t' hv hr h⟩
+/-- **History theorems for the extended API** (`Tab.OpX`: the base operations, `measure_x` / `x_measurement_gate`,
+    `measure_y`, `control_y_gate`, the wrappers' `trace_out_qubits`; `Tab.runOpsX`).  Every extended call is the history of its
+    base operations (`OpX.desugar`, on the current number of qubits), so along every accepted extended history: the tableau
+    stays valid with real stabilizer rows; its group is `specOpsX` (the abstract group semantics of the desugared calls, step
+    by step) of the initial group; its density matrix is `dOpsX` of the initial density matrix; and the Born probability of the
+    outcome script is `2^{-#random measurements}`. -/
+theorem history_extended_api (xs : List Tab.OpX) (hxs : ∀ x ∈ xs, WFX x) :
+    ∀ (t t' : Tab), t.Valid → t.StabReal → t.runOpsX xs = .ok t' →
+      t'.Valid ∧ t'.StabReal ∧ gstate t' = specOpsX xs (gstate t) ∧ dstate t' = dOpsX xs (dstate t) ∧
+      dProbOpsX xs (dstate t) = (1 / 2 : ℂ) ^ randOpsX t xs := by
+  induction xs with
+  | nil =>
+    intro t t' hv hr h
+    simp only [Tab.runOpsX, Except.ok.injEq] at h
+    subst h
+    exact ⟨hv, hr, rfl, rfl, by simp [dProbOpsX, randOpsX]⟩
+  | cons x rest ih =>
+    intro t t' hv hr h
+    simp only [Tab.runOpsX] at h
+    cases hx : t.applyOpX x with
+    | error e => rw [hx] at h; cases h
+    | ok r =>
+      rw [hx] at h
+      have hrun : t.runOps (x.desugar t.n) = .ok r.1 := by
+        have := applyOpX_runOps t x
+        rw [hx] at this
+        exact this.symm
+      have hw := wfx_desugar t.n x (hxs x List.mem_cons_self)
+      obtain ⟨v1, r1, g1⟩ := history_tracks_state _ hw t r.1 hv hr hrun
+      have d1 := history_tracks_density _ hw t r.1 hv hr hrun
+      have b1 := born_rule_history _ hw t r.1 hv hr hrun
+      obtain ⟨v', r', g', d', b'⟩ := ih (fun y hy => hxs y (List.mem_cons_of_mem _ hy)) r.1 t' v1 r1 h
+      refine ⟨v', r', ?_, ?_, ?_⟩
+      · rw [g', g1]; rfl
+      · rw [d', d1]; rfl
+      · show dProbOps (x.desugar t.n) (dstate t) * dProbOpsX rest (dOps (x.desugar t.n) (dstate t))
+          = (1 / 2 : ℂ) ^ (randOps t (x.desugar t.n) + match t.applyOpX x with
+            | .ok (t', _) => randOpsX t' rest
+            | .error _ => 0)
+        rw [hx, b1, ← d1, b', pow_add]
 
-/-- GHZ₃: `measure_x` of qubit 0 is random; `measure_y` of qubit 1 afterwards — the extended history is accepted -/
-example : (match ghz3.runOpsX [.measX 0 true, .measY 1 false, .xMeasGate 2 true] with
-    | .ok t' => t'.n == 3 && t'.isSymplectic | .error _ => false) = true := by decide +kernel
+/-- GHZ₃: `measure_x` (random), `measure_y`, `x_measurement_gate`, `control_y_gate`, `trace_out_qubits([1])` — accepted -/
+example : (match ghz3.runOpsX [.measX 0 true, .measY 1 false, .xMeasGate 2 true, .cy 0 2, .traceOut [1] [true]] with
+    | .ok t' => t'.n == 2 && t'.isSymplectic | .error _ => false) = true := by decide +kernel
 
 /-! ### 7.13 `trace_out_qubits` (state.py wrappers, defect D54 repaired) and `tensor` of a whole list -/
 
